@@ -3,6 +3,7 @@ package core
 import (
 	"github.com/reeflective/readline/inputrc"
 	"github.com/reeflective/readline/internal/strutil"
+	"github.com/reeflective/readline/internal/term"
 )
 
 // Cursor is the cursor position in the current line buffer.
@@ -380,6 +381,17 @@ func CoordinatesCursor(cur *Cursor, indent int) (x, y int) {
 			line := (*cur.line)[bpos:cur.pos]
 			usedX, y := strutil.LineSpan(line, pos, indent)
 			usedY += y
+
+			// A wide character under the cursor that does not fit
+			// in the rest of the row is displayed on the next one.
+			// (A tab is a sequence of blanks, which wrap one by one).
+			if cur.pos < cur.line.Len() && (*cur.line)[cur.pos] != '\t' {
+				width := strutil.RealLength(string((*cur.line)[cur.pos]))
+				if usedX > 0 && usedX+width > term.GetWidth() {
+					usedX = 0
+					usedY++
+				}
+			}
 
 			return usedX, usedY
 		}
